@@ -732,7 +732,8 @@ bool bloom_filter_alloc<A>::internal_query_and_update(uint64_t h0, uint64_t h1) 
   for (uint16_t i = 1; i <= num_hashes_; i++) {
     const uint64_t hash_index = ((h0 + i * h1) >> 1) % num_bits;
     bool value = bit_array_ops::get_and_set_bit(bit_array_, hash_index);
-    update_num_bits_set(num_bits_set_ + (value ? 0 : 1));
+    // a count left pending by update() stays pending: it is recomputed on demand, never adjusted from its stale value
+    if (!is_dirty_) update_num_bits_set(num_bits_set_ + (value ? 0 : 1));
     value_exists &= value;
   }
   return value_exists;
